@@ -23,7 +23,7 @@ for id in $PID "$@"; do
   grep -E "^VIOLATION|ANALYSIS-BROKEN|: rule " "$OUT/check_$id.out" | head -5 | tee -a "$LOG"
   CHK="$CHK $id:$rc"
 done
-( cd "$D" && timeout 1800 make check > "$OUT/makecheck.out" 2>&1 ); RC_MC=$?
+( cd "$D" && timeout 5400 make check > "$OUT/makecheck.out" 2>&1 ); RC_MC=$?
 tail -4 "$OUT/makecheck.out" | head -3 >> "$LOG"
 echo "make check on modified tree: rc=$RC_MC" | tee -a "$LOG"
 python3 - "$NAME" "$PID" "$RC_ORIG" "$RC_MOD" "$RC_MC" "$CHK" <<'PY'
